@@ -343,6 +343,7 @@ func (h *harness) flush() {
 			rep.Count("denote:none")
 		} else if info.flags[0] == '1' {
 			rep.Count("c08-oracle-applied")
+			rep.Count("c08-oracle-applied:stream:" + k.kind)
 			if info.flags == "1111" {
 				rep.Count("c08-oracle-applied:inside-main-theorem(flat,chok,nobool)")
 			}
@@ -368,6 +369,15 @@ func (h *harness) flush() {
 		if k.kind == "gen" || k.kind == "replay" {
 			for _, p := range productions(k.d, k.si, k.ch) {
 				rep.Count("prod:" + p)
+			}
+			if changed, reuse, reuseNE := baseReuse(k.d, k.base != ""); changed {
+				rep.Count("base-change:" + k.pkg + ":base-in-force-replaced-by-a-later-directive")
+				if reuse {
+					rep.Count("base-change:" + k.pkg + ":same-relative-reference-text-in-term-position-on-both-sides")
+				}
+				if reuseNE {
+					rep.Count("base-change:" + k.pkg + ":same-non-empty-relative-reference-text-on-both-sides")
+				}
 			}
 		}
 		h.record(lines[i], k, fs)
@@ -477,7 +487,7 @@ func main() {
 			assumed[p] = true
 		}
 	}
-	rule := "abstract Turtle/TriG documents (every production: four directives with keyword case bits, changing bases with relative references inside the resolver's safe fragment, prefixed names with PN_LOCAL_ESC / PERCENT / inner and trailing dots, keyword-like prefix labels, four string styles with every ECHAR / UCHAR choice, language tags, datatypes, INTEGER / DECIMAL / DOUBLE shapes, booleans, 'a', ';' repetitions and trailing ';', ',' lists, [] () nested to depth 3 also as subjects, GRAPH g {} / g {} / {} with iri / bnode / anon labels and optional final '.', shared blank node labels) printed by the Lean printer under random lexical and layout choices (none / SP / TAB / LF / CR / CRLF / comments), both packages, default base present / absent; a bounded-exhaustive family (thorough tier); an N-Triples stream through all four decoders. Non-trivial = the document is well formed (docWf), has a denotation and denotes at least one statement (the C08 oracle is applied and compares a non-empty statement list)"
+	rule := "abstract Turtle/TriG documents (every production: four directives with keyword case bits, changing bases with relative references inside the resolver's safe fragment drawn from a small per-document pool so that the same reference text recurs on both sides of a base change, empty-query references '?' / '?#f', prefixed names with PN_LOCAL_ESC / PERCENT / inner and trailing dots, keyword-like prefix labels, four string styles with every ECHAR / UCHAR choice, language tags, datatypes, INTEGER / DECIMAL / DOUBLE shapes, booleans, 'a', ';' repetitions and trailing ';', ',' lists, [] () nested to depth 3 also as subjects, GRAPH g {} / g {} / {} with iri / bnode / anon labels and optional final '.', shared blank node labels) printed by the Lean printer under random lexical and layout choices (none / SP / TAB / LF / CR / CRLF / comments), both packages, default base present / absent; a bounded family of base-change histories (same reference text before and after a second @base / BASE, both tiers); a bounded-exhaustive family (thorough tier); an N-Triples stream through all four decoders. Non-trivial = the document is well formed (docWf), has a denotation and denotes at least one statement (the C08 oracle is applied and compares a non-empty statement list)"
 	rep := vh.NewReport("C08", *tier, seed, rule)
 	startWatchdog(rep)
 	fsAll, err := vh.LoadFindings(*findings)
@@ -554,6 +564,7 @@ func main() {
 				os.Exit(2)
 			}
 			h.boundaries()
+			h.baseChanges()
 			h.generated(n)
 			h.flush()
 			if !*noExh {
